@@ -26,6 +26,7 @@ RULE = (
     "run twice (compiled+boundscheck, python kernels on index-checking proxies); plus the kernel-level 0.01 position lattice; "
     "non-trivial = a run in which at least one Runge-Kutta stage position was clipped or a particle left the grid; lattice points distinct by construction"
 )
+RULE += " Beyond the lattice (chosen scenarios, not enumerated): 2600 particles released in one step; Runge-Kutta stages exactly on a grid limit; signature-agnostic kernel proxies with write checks."
 ASSUMPTIONS = [
     "memory safety of numba-generated code itself is trusted once indices are in range",
     "NUMBA_BOUNDSCHECK=1 catches indices beyond the upper bound only; negative (wrapping) indices are caught by the proxy pass",
